@@ -38,6 +38,25 @@ Proof. revert s; induction n as [|n IH]; intros [|a s]; cbn; auto. Qed.
 Lemma drop_nonempty (n : nat) (s : bstr) : (n < length s)%nat -> drop n s <> [].
 Proof. intros H E. apply (f_equal (@length _)) in E. rewrite drop_length in E. cbn in E. lia. Qed.
 
+Lemma take_length (k : nat) (s : bstr) : (k <= length s)%nat -> length (take k s) = k.
+Proof. revert s; induction k as [|k IH]; intros [|a s] H; cbn in *; auto; try lia. rewrite IH; lia. Qed.
+
+Lemma is_prefix_length (p s : bstr) : is_prefix p s = true -> (length p <= length s)%nat.
+Proof.
+  revert s; induction p as [|a p IH]; intros [|c s] H; cbn in *; try lia; try discriminate.
+  apply Bool.andb_true_iff in H. destruct H as [_ H]. apply IH in H. lia.
+Qed.
+
+Lemma index_of_bound (sep : bstr) : forall s i j, index_of sep s i = Some j ->
+  i <= j /\ j - i + Z.of_nat (length sep) <= Z.of_nat (length s).
+Proof.
+  induction s as [|c s IH]; intros i j H; cbn [index_of] in H.
+  - destruct (is_prefix sep []) eqn:E; [|discriminate]. injection H as <-. apply is_prefix_length in E. cbn in *. lia.
+  - destruct (is_prefix sep (c :: s)) eqn:E.
+    + injection H as <-. apply is_prefix_length in E. cbn [length] in *. lia.
+    + apply IH in H. cbn [length]. lia.
+Qed.
+
 (* ---------- utf8 ---------- *)
 
 (* the width of a decoded rune: at least one byte, never more than there are; an ASCII rune is one byte *)
@@ -116,10 +135,11 @@ Qed.
 
 (* ---------- slices, emit, errorf ---------- *)
 
-Lemma slice_spec a e : 0 <= a <= e -> e <= ilen -> okp (slice inp ilen a e) (fun _ => True).
+Lemma slice_spec a e : 0 <= a <= e -> e <= ilen -> okp (slice inp ilen a e) (fun v => Z.of_nat (length v) = e - a).
 Proof.
   intros H1 H2. unfold slice.
-  destruct ((a <? 0) || (e <? a) || (ilen <? e)) eqn:E; [lia|exact I].
+  destruct ((a <? 0) || (e <? a) || (ilen <? e)) eqn:E; [lia|]. cbn.
+  rewrite take_length; [lia|]. rewrite drop_length. lia.
 Qed.
 
 Lemma byte_at_spec i : 0 <= i < ilen -> okp (byte_at inp ilen i) (fun _ => True).
